@@ -5,26 +5,34 @@ import re
 from . import absint as A
 from .engine import comparison_of, normalise_le
 from . import lib_c14 as L
-from .lib import PLUMBING, callers, lit_str, result_split, status_const_of_ctor
+from .lib import PLUMBING, callers, closure_of_operand, lit_str, result_split, status_const_of_ctor
 
 LEVEL = "other"
-TECHNIQUE = ("static analysis: sibling agreement of the token encoder/decoder (engine constant, JSON type, version variant, normalised size predicate), value-preserving chains, "
+TECHNIQUE = ("static analysis: sibling agreement of the token encoder/decoder (engine constant, JSON type, version variant, normalised size predicate), variant-aware value origins "
+             "(Ok payloads followed through `?` / match / map_err / extracted helpers), path facts that know which variant a Result holds, forward flow of the decoder's error, "
              "arm table of deserialize_whichpage, panic census, and exhaustive abstract interpretation of page_limit over all weak orders of {limit, max, default}")
-LEVEL_TEXT = ("Decided on the MIR of the current tree: serialize_page_token and deserialize_page_token use the same base64 engine constant, serde_json on the same SerializedToken<_> type "
-              "and the same version variant; the issuer's size test and the acceptor's size test are normalised to `len <= K` on their accept edges, measure the byte length of the same string "
-              "(after encode / before decode), and the issuer's largest accepted length is not larger than the acceptor's, so no issued token is refused for size, while the acceptor's test "
-              "dominates decoding (over-long tokens are refused before any parsing); the decoded selector is the page_start field of the parsed token and nothing else; every failure of the "
-              "decoder is an Err(String) that deserialize_whichpage maps with serde::de::Error::custom and propagates, the query loader turns a deserialisation error into for_bad_request "
-              "(evaluated 400) and the decoder region contains no panic site; with a page_token present only the token is consulted (from_map on the raw parameters is reachable only on the "
-              "None arm); page_limit is interpreted exhaustively: Some(l) -> min(l, max), None -> default, on a field of type Option<NonZeroU32> that only page_limit reads. "
+LEVEL_TEXT = ("Decided on the MIR of the current tree (private helpers extracted by refactorings are inlined first): serialize_page_token and deserialize_page_token use the same base64 "
+              "engine constant, serde_json on the same SerializedToken<_> type and the same version variant (written as a literal or a named constant); the Ok payload of the encoder "
+              "originates from Engine::encode of the Ok payload of serde_json::to_vec of SerializedToken{v, page_start: the argument}, with no `&mut` borrow on the way; the issuer's size test "
+              "and the acceptor's size test are normalised to `len <= K` on their accept edges, measure the byte length of the same string (after encode / before decode), and the "
+              "issuer's largest accepted length is not larger than the acceptor's, so no issued token is refused for size, while every feasible path to decoding takes the acceptor's "
+              "accept edge (over-long tokens are refused before any parsing) — whether the test is an early return, an if/else expression or a `check(..)?` helper; the decoded selector "
+              "is the page_start field of the parsed token and nothing else; every failure of the decoder is an Err(String) whose payload flows, through `?` / match / map_err in any "
+              "combination, into exactly one serde::de::Error::custom and from there to the return of deserialize_whichpage on every path of the error edge; every Err the query loader can "
+              "return is built by for_bad_request (evaluated 400) and a parse failure never becomes Ok; the decoder region contains no panic site outside debug_assert!; with a page_token "
+              "present only the token is consulted (from_map on the raw parameters and WhichPage::First are unreachable after the Some edge of the lookup's test); page_limit is interpreted "
+              "exhaustively: Some(l) -> min(l, max), None -> default, on a field of type Option<NonZeroU32> that only page_limit reads. "
               "Not decided: that serde_json/base64 invert each other for every selector value, serde's refusal of non-numeric/zero text for NonZeroU32.")
-LEVEL_NOTE = ("Trusts rustc MIR construction and const evaluation, the extractor, engine slices/dominators, the absint interpreter, and the library semantics named in the rules "
-              "(base64::Engine::{encode,decode}, serde_json::{to_vec,from_slice}, str::len = byte length, Option::{map,unwrap_or}, cmp::min, BTreeMap::get).")
-EXPLANATION = ("SIBLINGS-AGREE over the two token functions (constants, generic arguments, normalised comparison), CHAIN slices with short allow-lists for the encoded and decoded values, "
-               "DOM (edge dominance of the accept edge of the size test over decode / Ok), TABLE of the Some/None arms of deserialize_whichpage, CENSUS of panic sites and of readers of "
-               "PaginationParams.limit, SHAPE of the limit field, DECIDE (absint) of RequestContext::page_limit over 16 cells.")
-TRUSTED = ["rustc nightly MIR + const evaluation", "mirfacts extractor", "rules/engine.py slices and dominators", "rules/absint.py interpreter",
-           "base64::Engine encode/decode, serde_json to_vec/from_slice, serde derive for NonZeroU32 and single-variant enums", "std Option::map/unwrap_or, cmp::min, str::len"]
+LEVEL_NOTE = ("Trusts rustc MIR construction and const evaluation, the extractor, engine slices/dominators/helper inlining, rules/lib_c14.py (variant-aware origins, feasible paths, error flow), "
+              "the absint interpreter, and the library semantics named in the rules (base64::Engine::{encode,decode}, serde_json::{to_vec,from_slice}, str::len = byte length, "
+              "Result::{map,map_err}, the `?` operator, Option::{map,unwrap_or}, cmp::min, BTreeMap::get).")
+EXPLANATION = ("SIBLINGS-AGREE over the two token functions (constants, generic arguments, normalised comparison), ORIGIN traces (lib_c14.trace: projection- and variant-sensitive backward "
+               "value flow, so `x?`, `match x {Ok(v) => v, Err(e) => return Err(..)}`, `x.map_err(f)?` and helper extraction give the same origins) for the encoded and decoded values, "
+               "FEASIBLE-PATH dominance (lib_c14.Feas: reachability consistent in the variant of Result/Option locals) of the accept edge of the size test over decode / Ok, forward ERROR FLOW "
+               "of the decoder's Err payload to serde::de::Error::custom and the return place, TABLE of the Some/None edges of the lookup in deserialize_whichpage, CENSUS of panic sites "
+               "(per function incl. closures, debug_assert! regions excluded) and of readers of PaginationParams.limit, SHAPE of the limit field, DECIDE (absint) of RequestContext::page_limit over 16 cells.")
+TRUSTED = ["rustc nightly MIR + const evaluation", "mirfacts extractor", "rules/engine.py slices, dominators, helper inlining", "rules/lib_c14.py origins / feasible paths / error flow", "rules/absint.py interpreter",
+           "base64::Engine encode/decode, serde_json to_vec/from_slice, serde derive for NonZeroU32 and single-variant enums", "std Option::map/unwrap_or, Result::map/map_err, `?`, cmp::min, str::len"]
 
 SER = r"^pagination::serialize_page_token$"
 DE = r"^pagination::deserialize_page_token$"
@@ -384,16 +392,48 @@ def r3_failures(ctx, rid="C14.R3"):
     # the query loader
     ql = callers(ctx.ds, r"^serde_urlencoded::from_str$")
     ctx.check(R, "one-query-loader", len(ql) == 1, "callers of serde_urlencoded::from_str: %s" % [f.id for f, _, _ in ql], ql[0][0] if ql else None)
+    st400 = status_const_of_ctor(ctx.ds, "for_bad_request")
     for f, qbb, qt in ql:
-        errs = [(bb, st) for bb, i, st in f.aggregates(r"^std::result::Result$", "Err") if st["pl"]["l"] == 0 and bb in f.reachable(0)]
-        ok = bool(errs)
-        for bb, st in errs:
-            s = f.slice(st["rv"]["ops"][0])
-            ok = ok and s.has_call(r"^error::HttpError::for_bad_request$") and not s.has_call(r"for_internal_error|for_unavail")
-        nores = not f.live_calls(r"ops::FromResidual::from_residual$")
-        st400 = status_const_of_ctor(ctx.ds, "for_bad_request")
-        ctx.check(R, "query-error-is-400:%s" % f.id, ok and nores and st400 == {400},
-                  "Err(..) sites %d all for_bad_request=%s, no other error exit=%s, for_bad_request status %s" % (len(errs), ok, nores, sorted(st400 or [])), (f, qbb))
+        # every Err the loader can return is built by for_bad_request: `Err(for_bad_request(..))` in a match arm,
+        # `.map_err(|e| for_bad_request(..))`, or a helper called from either (helpers are inlined)
+        ctors, _ = _error_ctors(ctx, f)
+        # ... and a parse failure is never turned into Ok
+        split = result_split(f, qt["dest"]["l"])
+        if split:
+            feas = L.Feas(f)
+            after = feas.after_edge(split["switch_bb"], split["err"])
+            kept = not any(ob in after for ob in L.ok_sites(f))
+        else:
+            ends = L.err_flow(f, qt["dest"]["l"])
+            kept = bool(ends) and all(e["kind"] == "returned" for e in ends)
+        ctx.check(R, "query-error-is-400:%s" % f.id, ctors == ["error::HttpError::for_bad_request"] and kept and st400 == {400},
+                  "every Err(..) of the loader is built by %s; a parse failure always returns Err=%s; for_bad_request status %s" % (ctors or "nothing", kept, sorted(st400 or [])), (f, qbb))
+
+
+def _error_ctors(ctx, f):
+    """Names of the functions that build the Err payloads f can return (through map_err closures / fn items)."""
+    errs, _ = L.trace(f, (0, L.ERR_0), PLUMBING)
+    names = set()
+    for o in errs:
+        if o.is_call(r"Result::<T, E>::map_err$", None, L.ERR_0) and len(o.node["args"]) > 1:
+            a = o.node["args"][1]
+            if a.get("k") == "const" and a.get("fn"):
+                names.add(a["fn"])
+                continue
+            g, _n = closure_of_operand(f, a)
+            if g is None:
+                names.add("<opaque error mapper>")
+                continue
+            ro, _ = L.trace(g, (0, ()), PLUMBING)
+            for x in ro:
+                names.add(x.node.get("callee") or "<indirect>" if x.kind == "call" and not x.proj else x.describe())
+            if not ro:
+                names.add("<nothing>")
+        elif o.kind == "call" and not o.proj:
+            names.add(o.node.get("callee") or "<indirect>")
+        else:
+            names.add(o.describe())
+    return sorted(names), errs
 
 
 # ------------------------------------------------------------------------------------------------ R4
